@@ -190,6 +190,21 @@ func NewParams(schema *Schema, su SimpleURL, resType string) (*Params, error) {
 				urule = urule[1:]
 			}
 
+			// A field can only be sorted on once; later rules for the same
+			// field cannot change the order.
+			repeated := false
+
+			for _, r := range sortingRules {
+				if r == urule || r == "-"+urule {
+					repeated = true
+					break
+				}
+			}
+
+			if repeated {
+				continue
+			}
+
 			if urule == "id" {
 				idFound = true
 
